@@ -218,15 +218,18 @@ func c06RunPass(p compiler.Pass, in ast.Schemas) (res c06Result) {
 	return c06Result{status: "ok", schemas: out}
 }
 
-// c06RunChain applies the passes one after the other (what compiler.Passes.Process does), with
-// the guard before each pass.  `upto` < 0: the whole chain.
-func c06RunChain(passes compiler.Passes, in ast.Schemas, upto int) c06Result {
+// c06RunChain runs the chain the way compiler.Passes.Process does: ONE deep copy up front, then
+// every pass works on what the previous one returned, WITHOUT copying in between (kind pointers
+// shared between objects by an earlier pass, e.g. FlattenDisjunctions, stay shared and later
+// in-place mutation is observable).  The divergence guard runs before each pass.
+// `upto` < 0: the whole chain.
+func c06RunChain(passes compiler.Passes, in ast.Schemas, upto int) (res c06Result) {
 	cur := ast.Schemas(in).DeepCopy()
 	for i, p := range passes {
 		if upto >= 0 && i >= upto {
 			break
 		}
-		r := c06RunPass(p, cur)
+		r := c06RunPassNoCopy(p, cur)
 		if r.status != "ok" {
 			r.detail = c06PassName(p) + ": " + r.detail
 			return r
@@ -234,4 +237,20 @@ func c06RunChain(passes compiler.Passes, in ast.Schemas, upto int) c06Result {
 		cur = r.schemas
 	}
 	return c06Result{status: "ok", schemas: cur}
+}
+
+func c06RunPassNoCopy(p compiler.Pass, in ast.Schemas) (res c06Result) {
+	if c06HasCycle(in) {
+		return c06Result{status: "cycle"}
+	}
+	defer func() {
+		if r := recover(); r != nil {
+			res = c06Result{status: "panic", detail: fmt.Sprint(r)}
+		}
+	}()
+	out, err := p.Process(in)
+	if err != nil {
+		return c06Result{status: "err", detail: err.Error()}
+	}
+	return c06Result{status: "ok", schemas: out}
 }
